@@ -73,6 +73,24 @@ def run(ctx, prop):
         ctx.case(ops[-1], nontrivial=any(e[1] == 'AGENT_EXECUTING_PENDING' for e in ev))
         for p, sig, what in schedlib.monitor(rp, sc, out, tasks, crash, [prop]):
             ctx.fail(sig, what, {'script': sc})
+    if prop == 'C03':
+        # executor half of C03: one unschedule publication per accepted task, for every schedule
+        from props import c07, c08
+        eops, eimpl = [], []
+        for _ in range(ctx.n(150, 5000)):
+            cs = c07.gen_schedule(rng)
+            obs, done, rec, quiet = c07.run_schedule(rp, cs)
+            eops.append(c07.model_choices(done)); eimpl.append(obs)
+            ctx.case(eops[-1], nontrivial=obs[-1]['unsched'] == 1)
+            bad = c07.monitor(obs, rec, quiet, True)
+            if bad and ('released' in bad[0] or 'left-behind' in bad[0]):
+                ctx.fail('executor:' + bad[0], bad[1], {'script': None, 'choices': cs})
+        common.compare(ctx, 'exec', eops, eimpl, what='executor half: unschedule publications of the real Popen executor per schedule')
+        res, unsched = c08.run_intake(rp, [], [3], [3])
+        if res['canceled'] and not all(t in unsched for t in res['canceled']):
+            ctx.fail('cancel-at-executor-intake:resources-never-released',
+                     'task 3 holds slots, is canceled by the executor intake filter, no unschedule is published',
+                     {'script': None, 'intake': {'cl': [], 'uids': [3], 'things': [3]}})
     ctx.sample({'script': scripts[-1], 'observed_events': [o['events'] for o in
                 schedlib.run_script(rp, scripts[-1])[1]]}, limit=1)
     ctx.extra['distribution'] = dist
@@ -92,6 +110,15 @@ def run(ctx, prop):
 def replay(ctx, data, prop):
     rp = rpload.load()
     sc = data['input']['script']
+    if sc is None:
+        from props import c07, c08
+        if 'intake' in data['input']:
+            i = data['input']['intake']
+            res, unsched = c08.run_intake(rp, i['cl'], i['uids'], i['things'])
+            print(res, unsched)
+            return all(t in unsched for t in res['canceled'])
+        obs, done, rec, quiet = c07.run_schedule(rp, data['input']['choices'])
+        return c07.monitor(obs, rec, quiet, True) is None
     s, out, tasks, crash = schedlib.run_script(rp, sc)
     v = schedlib.monitor(rp, sc, out, tasks, crash, [prop])
     for o in out: print(o['events'])
